@@ -70,13 +70,28 @@ CANARIES = [
 ]
 
 
+COMMON_ACTIONS = ["EnterRoutine", "EnvStepAndStore", "BeginIteration", "CriticUpdate", "UpdatePriority", "EndOfStep"]
+ROUTINE_ACTIONS = {
+    "td7": ["UpdateRange", "SnapshotMetrics", "CopyTargets", "ResetMaxPriority", "UpdateTargetRange", "LogMetrics"],
+    "mrq": ["CopyTargets", "HandOver", "ResetMaxPriority", "TrainEncoderBlock", "LogRewardScale"],
+    "td3_lap": [],
+}
+
+
 def _tlc_design(name, consts, workers, invariants=None):
-    props = PROPS if invariants is None else []
-    return name, tlc.run("Bookkeeping", tlc.cfg_text(constants=consts, invariants=invariants or INVS, properties=props), workers=workers, tag="x02design", timeout=600)
+    """One TLC run of the design model.  Full runs (all invariants + the action property) also collect action coverage:
+    every action of the routine's loop body must have been taken (vacuity guard)."""
+    full = invariants is None
+    r = tlc.run("Bookkeeping", tlc.cfg_text(constants=consts, invariants=invariants or INVS, properties=PROPS if full else []), workers=workers,
+                coverage=full, tag="x02design", timeout=600)
+    if full and r.ok:
+        need = COMMON_ACTIONS + ROUTINE_ACTIONS[consts["Routine"]] + (["StoreBefore"] if consts["Prefill"] else [])
+        tlc.require_covered(r, need)
+    return name, r
 
 
 # ------------------------------------------------------------------ recording
-def _record_group(tier, seed, group, outdir, repo, timeout=900):
+def _record_group(tier, seed, group, outdir, repo, timeout=300):
     out = os.path.join(outdir, f"{group}.json")
     env = dict(os.environ)
     env.update(PYTHONPATH=repo + os.pathsep + ROOT, JAX_PLATFORMS="cpu", TF_CPP_MIN_LOG_LEVEL="3", PYTHONHASHSEED="0")
@@ -171,59 +186,64 @@ def _first(evs, pred, nth=0):
     return hits[min(nth, len(hits) - 1)] if hits else None
 
 
+def _c_bound(t):  # one clipping bound one float32 step off
+    i = _first(t["events"], lambda e: e["ev"] == "bk_critic", 3)
+    t["events"][i]["lo"] = [t["events"][i]["lo"][0] + 1, True]
+
+
+def _c_noreset(t):  # a reset_max_priority call dropped at an update point
+    i = _first(t["events"], lambda e: e["ev"] == "prio_reset")
+    del t["events"][i:i + 2]
+
+
+def _c_logcurrent(t):  # the logger handed the target range of AFTER the update (the state at the time of the call)
+    i = _first(t["events"], lambda e: e["ev"] == "bk_target_range")
+    j = next(k for k in range(i, len(t["events"])) if t["events"][k]["ev"] == "bk_log" and t["events"][k]["key"] == "max_target_value")
+    t["events"][j]["o"] = t["events"][i]["after"]["maxT"]
+
+
+def _c_pair(t):  # the pair handed to the critic swapped
+    i = _first(t["events"], lambda e: e["ev"] == "bk_critic" and e["rs"] != e["trs"])
+    e = t["events"][i]
+    e["rs"], e["trs"] = e["trs"], e["rs"]
+
+
+def _c_reward(t):  # a stored reward of a different magnitude: the recorded scale is no longer the mean absolute reward
+    i = _first(t["events"], lambda e: e["ev"] == "add")
+    t["events"][i]["r4"] += 4
+
+
+def _c_grid(t):  # the reset moved off the 250-step grid
+    i = _first(t["events"], lambda e: e["ev"] == "prio_reset")
+    ev = t["events"][i:i + 2]
+    del t["events"][i:i + 2]
+    j = _first(t["events"], lambda e: e["ev"] == "prio_update", 9)
+    t["events"][j + 1:j + 1] = ev
+
+
+CORRUPTIONS = [("td7", "bound", _c_bound, "BoundsAreTargetRange"), ("td7", "noreset", _c_noreset, "ResetExactlyAtUpdatePoints"),
+               ("td7", "logcurrent", _c_logcurrent, "LoggedMetricsAreSnapshot"), ("mrq", "pair", _c_pair, "CriticGetsCurrentScales"),
+               ("mrq", "reward", _c_reward, "RewardScaleIsMeanAbsReward"), ("td3_lap", "grid", _c_grid, "ResetOnFixedGrid")]
+
+
 def corruptions(traces):
-    """Corrupted copies of recorded traces -> (trace, clause the trace specification must name)."""
-    out = []
+    """Corrupted copies of recorded traces -> (trace, clause the trace specification must name).  A corruption that cannot
+    be built (the run lacks the event: the repository deviates) is skipped; run() demands enough judged corruptions."""
     by = {}
     for t in traces:
         if not t.get("error"):
             by.setdefault(t["cfg"]["routine"], t)
-    t7, tm, tl = by.get("td7"), by.get("mrq"), by.get("td3_lap")
-    if t7:
-        # one clipping bound one float32 step off
-        b = copy.deepcopy(t7)
-        b["id"] = "canary:bound"
-        i = _first(b["events"], lambda e: e["ev"] == "bk_critic", 3)
-        b["events"][i]["lo"] = [b["events"][i]["lo"][0] + 1, True]
-        out.append((b, "BoundsAreTargetRange"))
-        # a reset_max_priority call dropped at an update point
-        b = copy.deepcopy(t7)
-        b["id"] = "canary:noreset"
-        i = _first(b["events"], lambda e: e["ev"] == "prio_reset")
-        del b["events"][i:i + 2]
-        out.append((b, "ResetExactlyAtUpdatePoints"))
-        # the logger handed the target range of AFTER the update (the state at the time of the call)
-        b = copy.deepcopy(t7)
-        b["id"] = "canary:logcurrent"
-        i = _first(b["events"], lambda e: e["ev"] == "bk_target_range")
-        j = _first(b["events"], lambda e: e["ev"] == "bk_log" and e["key"] == "max_target_value" and b["events"].index(e) > i)
-        b["events"][j]["o"] = b["events"][i]["after"]["maxT"]
-        out.append((b, "LoggedMetricsAreSnapshot"))
-    if tm:
-        # the pair handed to the critic swapped
-        b = copy.deepcopy(tm)
-        b["id"] = "canary:pair"
-        i = _first(b["events"], lambda e: e["ev"] == "bk_critic" and e["rs"] != e["trs"])
-        if i is None:
-            raise tlc.MachineryError("binding canary: no MR.Q critic call with two different scales recorded")
-        e = b["events"][i]
-        e["rs"], e["trs"] = e["trs"], e["rs"]
-        out.append((b, "CriticGetsCurrentScales"))
-        # a stored reward with the wrong sign does not change the mean absolute reward; a wrong magnitude does
-        b = copy.deepcopy(tm)
-        b["id"] = "canary:reward"
-        i = _first(b["events"], lambda e: e["ev"] == "add")
-        b["events"][i]["r4"] += 4
-        out.append((b, "RewardScaleIsMeanAbsReward"))
-    if tl:
-        b = copy.deepcopy(tl)
-        b["id"] = "canary:grid"
-        i = _first(b["events"], lambda e: e["ev"] == "prio_reset")
-        ev = b["events"][i:i + 2]
-        del b["events"][i:i + 2]
-        j = _first(b["events"], lambda e: e["ev"] == "prio_update", 9)
-        b["events"][j + 1:j + 1] = ev
-        out.append((b, "ResetOnFixedGrid"))
+    out = []
+    for rname, name, fn, clause in CORRUPTIONS:
+        if rname not in by:
+            continue
+        b = copy.deepcopy(by[rname])
+        b["id"], b["base"] = "canary:" + name, by[rname]["id"]
+        try:
+            fn(b)
+        except Exception:
+            continue
+        out.append((b, clause))
     return out
 
 
@@ -282,13 +302,35 @@ def run(rep):
     corr = corruptions(traces)
     out, r, norm = validate(traces + [c for c, _ in corr])
     rep.add_tlc(r, "BookkeepingTrace batched trace validation")
+    n_events = _violations(rep, traces, out)
+    # a corruption only counts when the trace it was derived from is accepted: on a deviating repository the "corrupted"
+    # value may be the conforming one
+    counted = 0
     for c, clause in corr:
+        if out[c["base"]]["viol"]:
+            continue
+        counted += 1
         got = {cl for _, cl in out[c["id"]]["viol"]}
         if clause not in got:
             raise tlc.MachineryError(f"binding canary {c['id']}: corrupted trace not rejected by clause {clause} (got {sorted(got)})")
-    if len(corr) < 4:
-        raise tlc.MachineryError(f"binding canaries: only {len(corr)} could be built (a routine produced no usable trace)")
-    n_events = _violations(rep, traces, out)
+    if counted < 4 and not rep.violations:
+        raise tlc.MachineryError(f"binding canaries: only {counted} could be judged (a routine produced no usable trace)")
+    if not rep.violations:
+        # non-vacuity of the recorded runs: update points, differing scales, target ranges that differ from the running ranges
+        for t in traces:
+            v, rname = out[t["id"]], t["cfg"]["routine"]
+            if v["updates"] < (1 if rname == "td3_lap" else 2):
+                raise tlc.MachineryError(f"scenario {t['id']} contains too few update points ({v['updates']})")
+            if rname == "mrq" and not any(e["ev"] == "bk_critic" and e["rs"] != e["trs"] and e["trs"][0] != 0 for e in t["events"]):
+                raise tlc.MachineryError(f"scenario {t['id']}: the reward scale never differs from the target reward scale")
+        def _lagging(t):  # some running range differs from a non-initial target range
+            return any(e["ev"] == "bk_range" and (e["after"]["minV"] != e["after"]["minT"] or e["after"]["maxV"] != e["after"]["maxT"])
+                       and e["after"]["maxT"][0] != 0 for e in t["events"])
+
+        lag = [t["id"] for t in traces if t["cfg"]["routine"] == "td7" and _lagging(t)]
+        rep.extra["td7_traces_with_lagging_target_range"] = lag
+        if not lag:
+            raise tlc.MachineryError("no TD7 run in which the running range differs from a non-initial target range")
     # -- evidence
     per = {}
     for t in traces:
